@@ -53,13 +53,23 @@ def run(ctx):
     tmpdir = tempfile.mkdtemp(prefix="verif_c01_")
     counter = [0]
 
-    def file_based(text, case, impl, extra=()):
-        """the same text given as a file (with and without a final line end) must give the same tables"""
+    def file_based(text, case, impl, extra=(), doc=None):
+        """the same text given as a file (with and without a final line end; with lone `End` lines between its statements, as
+        when files each closed by End are joined with cat) must give the same tables"""
         counter[0] += 1
-        for strip in (False, True):
-            path = os.path.join(tmpdir, f"f{counter[0]}_{int(strip)}.dec")
+        variants = [(False, text), (True, text.rstrip("\r\n\t "))]
+        if doc is not None and len(doc) >= 2:
+            cuts = set(rng.sample(range(1, len(doc)), min(len(doc) - 1, rng.choice([1, 1, 2]))))
+            parts = []
+            for k, st in enumerate(doc):
+                if k in cuts:
+                    parts.append(rng.choice(["End", "End", "  End", "End # of the common part", "End\t"]))
+                parts.append(render_doc([st]).rstrip("\n"))
+            variants.append(("End", "\n".join(parts) + rng.choice(["\n", "\nEnd\n", ""])))
+        for strip, body in variants:
+            path = os.path.join(tmpdir, f"f{counter[0]}_{strip}.dec")
             with open(path, "w", encoding="utf-8", newline="") as f:
-                f.write(text.rstrip("\r\n\t ") if strip else text)
+                f.write(body)
             try:
                 q = DecFileParser(path)
                 if extra:
@@ -70,7 +80,7 @@ def run(ctx):
                 got = "error: " + err_class(e)
             if got != impl:
                 res.violation("the text read from a file gives different tables than the same text given as a string",
-                              dict(case, final_newline=not strip), impl=got if isinstance(got, str) else got[:3], model=impl[:3], clause="file-based construction")
+                              dict(case, final_newline=not strip, file_text=body if strip == "End" else None), impl=got if isinstance(got, str) else got[:3], model=impl[:3], clause="file-based construction")
                 return
 
     def one(text, label, doc=None, cc=True, extra=()):
@@ -130,7 +140,7 @@ def run(ctx):
             if [list(x[1] for x in ls) for m, ls in pub] != [[list(fs) for fs in p.list_decay_modes(m)] for m, _ in pub]:
                 res.violation("list_decay_modes differs from the decay mode details", case, clause="daughters verbatim and in order")
             if doc is not None and res.evaluations % 4 == 0:
-                file_based(text, case, impl, extra)
+                file_based(text, case, impl, extra, doc)
 
         def on(ans, case=case, impl=impl, err=err):
             if ans is None:
